@@ -190,13 +190,14 @@ ob("c13::solver::powi_no_panic", "C13", checks="default", timeout=900, functions
 ob("c13::solver::powi_zero_one", "C13", checks="default", timeout=600, functions=["TwoFloat::powi"])
 ob("c13::solver::sqrt_domain", "C13", checks="default", timeout=600, functions=["TwoFloat::sqrt"])
 ob("c13::solver::roots_no_panic", "C13", checks="default", timeout=600, functions=["TwoFloat::sqrt", "TwoFloat::cbrt", "TwoFloat::hypot"])
-ob("c13::powi_neg_is_recip_small", "C13", cls="bounded", timeout=900, backend="cbmc+cvc5", functions=["TwoFloat::powi"], bound={"exponent": "0 < n <= 3", "operands": "all word patterns"})
+for _n in (2, 3, 6):
+    ob("c13::powi_neg_is_recip_n%d" % _n, "C13", cls="bounded", timeout=600, backend="cbmc+cvc5", functions=["TwoFloat::powi"], bound={"exponent": "n == %d" % _n, "operands": "all word patterns"})
 ob("c13::exact_points", "C13", cls="ground", native=True, functions=["TwoFloat::sqrt", "TwoFloat::cbrt", "TwoFloat::powi"])
 
 # ------------------------------------------------------------------ C15
 ob("c15::solver::logs_no_panic", "C15", checks="default", timeout=900, functions=["TwoFloat::ln", "TwoFloat::log2", "TwoFloat::log10", "TwoFloat::ln_1p", "TwoFloat::log"])
 ob("c15::solver::logs_domain", "C15", checks="default", timeout=900, functions=["TwoFloat::ln", "TwoFloat::log2", "TwoFloat::ln_1p"])
-ob("c15::log10_is_quotient", "C15", cls="miter", timeout=600, backend="cbmc+cvc5", functions=["TwoFloat::log10"])
+ob("c15::log10_is_quotient", "C15", cls="miter", timeout=300, functions=["TwoFloat::log10"])
 ob("c15::exact_points", "C15", cls="ground", native=True, functions=["TwoFloat::ln", "TwoFloat::log2", "TwoFloat::log10", "TwoFloat::ln_1p", "TwoFloat::log"])
 ob("c15::log2_powers_of_two", "C15", cls="ground", native=True, functions=["TwoFloat::log2"])
 
